@@ -359,8 +359,12 @@ class CellVariable:
         CellVariable
             Copy of the CellVariable.
         """
-        return CellVariable(self.domain, np.copy(self._value),
-                            deepcopy(self.BCs))
+        c = CellVariable(self.domain, np.copy(self._value),
+                         deepcopy(self.BCs))
+        # the ghost cells are copied as they are: if they are not up to date
+        # (values modified since the last apply_BCs), the copy must know
+        c._value.modified = self._value.modified
+        return c
     
     def plotprofile(self):
         """
